@@ -9,7 +9,7 @@
  *   KR n window            n keys, font 0, hash < window (window 0: any)
  *   R name                 new execution: fresh cache; logs Reset, Keys
  *   F | T                  freeze | thaw
- *   I k ox oy fmt w h seed insert key k with a w x h image (fmt 0 a1, 1 a8, 2 a8r8g8b8), pixels from seed
+ *   I k ox oy fmt w h seed insert key k with a w x h image (fmt: index into the table of fmt_code()), pixels from seed
  *   L k | D k              lookup | remove
  *   U mode n k*n           draw the n glyphs and read back: mode 0 composite_glyphs_no_mask, 1 composite_glyphs,
  *                          2 no_mask with every glyph positioned outside the destination, 3 no_mask with every
@@ -74,15 +74,16 @@ key_id (const void *f, const void *g)
 static pixman_format_code_t
 fmt_code (int f)
 {
-    switch (f)
-    {
-    case 0: return PIXMAN_a1;
-    case 1: return PIXMAN_a8;
-    case 2: return PIXMAN_a8r8g8b8;
-    case 3: return PIXMAN_x8r8g8b8;
-    case 4: return PIXMAN_r5g6b5;
-    default: return PIXMAN_a8;
-    }
+    static const pixman_format_code_t tab[] = {
+	PIXMAN_a1, PIXMAN_a8, PIXMAN_a8r8g8b8, PIXMAN_x8r8g8b8, PIXMAN_r5g6b5,		/* 0..4 */
+	PIXMAN_a4, PIXMAN_a8b8g8r8, PIXMAN_b8g8r8a8, PIXMAN_r8g8b8a8,			/* 5..8 */
+	PIXMAN_a8r8g8b8_sRGB, PIXMAN_a2r10g10b10, PIXMAN_a1r5g5b5, PIXMAN_a4r4g4b4,	/* 9..12 */
+	PIXMAN_rgba_float, PIXMAN_a2b10g10r10, PIXMAN_a2r2g2b2, PIXMAN_a1b5g5r5,	/* 13..16 */
+	PIXMAN_a4b4g4r4, PIXMAN_a1r1g1b1, PIXMAN_r3g3b2, PIXMAN_x4a4			/* 17..20 */
+    };
+    if (f < 0 || f >= (int)(sizeof tab / sizeof tab[0]))
+	return PIXMAN_a8;
+    return tab[f];
 }
 
 static int
@@ -102,6 +103,16 @@ make_bits (pixman_format_code_t f, int w, int h, uint64_t seed, int zero)
     d = pixman_image_get_data (img);
     n = pixman_image_get_stride (img) / 4 * h;
     vrng_seed (&r, seed);
+    if (PIXMAN_FORMAT_TYPE (f) == PIXMAN_TYPE_RGBA_FLOAT)
+    {
+	float *fd = (float *)d;
+	for (i = 0; i < n; i++)
+	{
+	    uint32_t v = (uint32_t)vrng_next (&r);
+	    fd[i] = zero ? 0.0f : ((v & 7) == 0 ? 1.0f : (v & 7) == 1 ? 0.0f : (float)(v >> 8) / 16777216.0f);
+	}
+	return img;
+    }
     for (i = 0; i < n; i++)
     {
 	uint32_t v = (uint32_t)vrng_next (&r);
